@@ -170,6 +170,7 @@ fn main() {
         "comp" => vharness::comp::run(seed, n, thorough, &corpus, &dir),
         "fdec" => vharness::fdec::run(seed, n, thorough, &corpus, &dir),
         "ovs" => vharness::ovs::run(seed, n, thorough, &corpus, &dir),
+        "saslx" => vharness::saslx::run(seed, n, thorough, &corpus, &dir),
         other => { eprintln!("unknown sub-harness {other}"); std::process::exit(2); }
     }
 }
